@@ -1559,6 +1559,35 @@ fn expect(c: &Case) -> Expect {
     }
 }
 
+/// the source of a case in words (for the replay files)
+fn describe(c: &Case) -> String {
+    match c.kind {
+        "adv" => format!("single UFO (upem 1000): glyph a = square 0..100 with <advance width={}>, glyph b advance 600", c.a),
+        "vadv" => format!("single UFO with openTypeVheaVertTypo* set: glyph a = square 0..100 with <advance height={}>", c.a),
+        "coord" | "diff" | "tsb" => format!(
+            "single UFO{}: glyph a = one closed contour of line points {:?}",
+            if c.kind == "tsb" { format!(" with openTypeVheaVertTypo* set and openTypeOS2TypoAscender {}", c.b) } else { String::new() },
+            coord_contours(c)[0]
+        ),
+        "compoff" | "compbbox" => format!("single UFO: ap = square 0..100, an = square -100..0, glyph c = one component of {} with {}Offset={}", if (c.a >= 0.0) == (c.kind == "compoff") { "an" } else { "ap" }, if c.n == 0 { "x" } else { "y" }, c.a),
+        "scale" => format!("single UFO: ap = square 0..100, glyph c = component of ap with {}={} plus component of ap at xOffset 300", ["xScale", "xyScale", "yxScale", "yScale"][c.n as usize], c.a),
+        "flatscale" => format!("single UFO, --flatten-components: ap = square 0..100; b = ap scaled {} + ap at x 300; c = b scaled {} + ap at y 300", c.b, c.a),
+        "kern" => format!("single UFO: kerning.plist a b = {}", c.a),
+        "anchor" => format!("single UFO: glyph a anchor top at {}, acutecomb (U+0301) anchor _top at (50,500)", if c.n == 0 { format!("({}, 700)", c.a) } else { format!("(300, {})", c.a) }),
+        "vorig" => format!("single UFO with openTypeVheaVertTypo* set, openTypeOS2TypoAscender {} (the vertical origin); glyph a = square with yMax 0, height 1000", c.a),
+        "hhea" => format!("single UFO: {} = {}", ["openTypeHheaAscender", "openTypeHheaDescender", "openTypeHheaLineGap"][c.n as usize], c.a),
+        "hvar" => format!("designspace wght 400..700, two masters: glyph a advance {} at 400 and {} at 700", c.a, c.a + c.b),
+        "gvar" => format!("designspace wght 400..700, two masters: glyph a = rectangle between x=0 and x={} at 400, x={} at 700", c.a, c.a + c.b),
+        "compdelta" => format!("designspace wght 400..700, two masters: glyph c = component of the unit square az at xOffset {} at 400 and {} at 700", c.a, c.a + c.b),
+        "comptotal" => format!("single UFO: glyph a = one contour of {} points, glyph c = {} components of a", c.a, c.n),
+        "npoints" => format!("single UFO: glyph a = one contour of {} line points", c.n),
+        "ncontours" => format!("single UFO: glyph a = {} two-point contours", c.n),
+        "nglyphs" => format!("single UFO with {} empty glyphs (plus the generated .notdef), advances {}", c.n - 1, if c.a == 1.0 { "alternating 500/501" } else { "all 600" }),
+        "widthclass" => format!("fontdrasil::types::WidthClass::try_from({}u16)", c.n),
+        _ => String::new(),
+    }
+}
+
 /// (site key for an emitted but unfaithful value, site key for a debug/release disagreement,
 ///  what the field is)
 fn keys(kind: &str) -> (&'static str, &'static str, &'static str) {
@@ -1752,7 +1781,7 @@ fn main() {
     let args = &args[1..];
     let seed = arg_val(args, "--seed", 1);
     let n = arg_val(args, "--n", 100) as usize;
-    let threads = arg_val(args, "--threads", 6) as usize;
+    let threads = arg_val(args, "--threads", 8) as usize;
     let tier = args.iter().position(|a| a == "--tier").and_then(|i| args.get(i + 1)).cloned().unwrap_or_else(|| "quick".into());
     let worker = args.iter().any(|a| a == "--worker");
     let probe = args.iter().any(|a| a == "--probe");
@@ -1838,7 +1867,7 @@ fn main() {
         let (sat_key, arith_key, what) = keys(c.kind);
         let e = expect(c);
         let representable = matches!(e, Expect::Exactly(_) | Expect::AnyOf(_));
-        let ctx = json!({"case": c.id, "kind": c.kind, "a": c.a, "b": c.b, "n": c.n, "draw": c.draw,
+        let ctx = json!({"case": c.id, "kind": c.kind, "a": c.a, "b": c.b, "n": c.n, "draw": c.draw, "source": describe(c),
             "debug": {"outcome": d.class, "fields": d.fields.iter().take(60).collect::<Vec<_>>(), "message": d.msg},
             "release": {"outcome": r.class, "fields": r.fields.iter().take(60).collect::<Vec<_>>(), "message": r.msg},
             "representable": representable});
